@@ -410,6 +410,9 @@ func (s *BgpServer) Serve() {
 	}()
 
 	for {
+		if verifEnabled {
+			verifYield("serve", "")
+		}
 		tStart := time.Now()
 		select {
 		case <-s.runningCtx.Done():
@@ -463,6 +466,9 @@ func (s *BgpServer) matchLongestDynamicNeighborPrefix(a string) *peerGroup {
 }
 
 func sendfsmOutgoingMsg(peer *peer, paths []*table.Path) {
+	if verifEnabled {
+		verifTrace("enq", peer.fsm.pConf.ReadOnly().State.NeighborAddress.String(), paths)
+	}
 	peer.fsm.outgoingCh.In() <- &fsmOutgoingMsg{
 		Paths: paths,
 	}
@@ -1334,6 +1340,9 @@ func (s *BgpServer) propagateUpdate(peer *peer, pathList []*table.Path) {
 
 			if dsts := rib.Update(path); len(dsts) > 0 {
 				s.propagateUpdateToNeighbors(rib, peer, path, dsts, true)
+			}
+			if verifEnabled {
+				verifTrace("rib", tableId, path)
 			}
 		}(path)
 	}
